@@ -134,11 +134,31 @@ def record(sc):
                             kept.update(r=r, pool=pool, ver=dict(ver), sticky=set())
                         e["sticky"] = sorted(kept["sticky"])
                         kept["sticky"] |= set(pool.stores)
-                        res = r.sample(sc["n"], n_sim=k * sc["bs"], bar=False)
+                        sched = sc.get("sched")
+                        if sched:
+                            # a THRESHOLD objective on a client that keeps several batches outstanding and finishes them at its own
+                            # pace: speculative batches are cancelled when the run ends, some of them already finished - the pool
+                            # holds the CONSUMED batches, no others (k = the number of batches the run consumed)
+                            from harness.sched_client import ScheduledClient
+                            old = elfi.client._client
+                            elfi.client.set_client(ScheduledClient(seed=sched["seed"], p_ready=sched["p_ready"], p_run=sched["p_run"], cores=sched["maxpar"]))
+                            try:
+                                r = elfi.Rejection(m["d"], batch_size=sc["bs"], seed=sc["seed"], pool=pool, output_names=list(sc["extra"]),
+                                                   max_parallel_batches=sched["maxpar"])
+                                kept.update(r=None)
+                                res = r.sample(sc["n"], threshold=sched["thr"], bar=False)
+                            finally:
+                                elfi.client.set_client(old)
+                            k = e["k"] = int(res.n_batches)
+                        else:
+                            res = r.sample(sc["n"], n_sim=k * sc["bs"], bar=False)
                         e["calls"] = [list(c) for c in CALLS]
                         e["res"] = res_digest(res)
                         twin = elfi.Rejection(build(sc, ver)["d"], batch_size=sc["bs"], seed=sc["seed"], output_names=sc["extra"])
-                        e["twin"] = res_digest(twin.sample(sc["n"], n_sim=k * sc["bs"], bar=False))
+                        if sched:
+                            e["twin"] = res_digest(twin.sample(sc["n"], threshold=sched["thr"], bar=False))
+                        else:
+                            e["twin"] = res_digest(twin.sample(sc["n"], n_sim=k * sc["bs"], bar=False))
                         # pool content vs fresh computation of each held batch
                         from elfi.model.elfi_model import ComputationContext
                         ctx = ComputationContext(batch_size=sc["bs"], seed=sc["seed"])
@@ -306,6 +326,12 @@ def scenarios(ctx):
     # and computed from it); the simulator's store is removed; rerun - the simulator has to run again
     out.append(dict(stored=["sim", "d"], pool="output", bs=1, n=1, seed=1128080741, keep_sampler=True, extra=["S"],
                     acts=[["run", 3], ["run", 2], ["remove", "sim"], ["run", 3]], pinned="F37 history (fixed)"))
+    # threshold runs on a client that keeps batches outstanding (speculative batches, some finished, are cancelled at the end)
+    for j, stored in enumerate([["sim"], ["sim", "S"], ["S", "d"], ["sim", "S", "d", "t1", "t2"]] * (1 if ctx.quick else 3)):
+        out.append(dict(stored=stored, pool=["output", "array"][j % 2], bs=rnd.choice([1, 2]), n=rnd.choice([2, 3]), seed=rnd.randint(1, 2 ** 31 - 1),
+                        extra=[], keep_sampler=False, acts=[["run", 0], ["run", 0]],
+                        sched=dict(thr=rnd.choice([1, 2, 3]), maxpar=rnd.choice([2, 3, 4]), seed=rnd.randint(0, 10 ** 6), p_ready=rnd.choice([0.2, 0.5]),
+                                   p_run=rnd.choice([0.5, 0.9]))))
     # on-disk pools opened from a pickle that is older than the data files (saved, used further, not saved again)
     for stored in (STATED if not ctx.quick else [["sim"], ["S", "d"], ["sim", "S", "d", "t1", "t2"]]):
         k1, k2, k3 = rnd.randint(1, 2), rnd.randint(3, 4), rnd.randint(5, 7)
